@@ -161,6 +161,10 @@ theorem Tri.modify {I : s → Prop} {E : ε → s → Prop} {g : s → s} (hg : 
     Tri I E (modify g : ExceptT ε (StateM s) PUnit) :=
   ⟨fun _ hi _ _ h => by cases h; exact hg _ hi⟩
 
+theorem Tri.modifyGet {I : s → Prop} {E : ε → s → Prop} {g : s → α × s} (hg : ∀ st, I st → I (g st).2) :
+    Tri I E (modifyGet g : ExceptT ε (StateM s) α) :=
+  ⟨fun _ hi _ _ h => by cases h; exact hg _ hi⟩
+
 theorem Tri.bind {I : s → Prop} {E : ε → s → Prop} {x : ExceptT ε (StateM s) α}
     {f : α → ExceptT ε (StateM s) β} (hx : Tri I E x) (hf : ∀ a, Tri I E (f a)) : Tri I E (x >>= f) := by
   constructor
@@ -311,6 +315,7 @@ macro_rules
       | ((with_reducible refine Tri.throw ?_); intro _ _; tri_close)
       | ((with_reducible refine Tri.set ?_); tri_close)
       | ((with_reducible refine Tri.modify ?_); intro _ _; tri_close)
+      | ((with_reducible refine Tri.modifyGet ?_); intro _ _; tri_close)
       | ((with_reducible refine Tri.get_bind ?_); intro _ _)
       | with_reducible refine Tri.bind ?_ ?_
       | throws_hyp
